@@ -156,9 +156,14 @@ def run(repo, chk):
             okg = isinstance(gd, Ineq) and gd.lb is None and gd.ub is not None and is_zero((canon(gd.body)[0] - canon(ex.S(gd.ub))[0]).xreplace(ELEV_SUB) - gref[i])
             chk.expect(bool(okg), "R-C08-1", "leak branch %d guard is %s <= 0%s" % (i, gref[i], tagj), loc(fn), found=str(gd))
         got_law = True
-        attrs = set(p.updater_attrs())
-        chk.expect({"leak_status", "_is_isolated"} <= attrs, "R-C08-3", "leak_constraint rebuilds when leak_status or _is_isolated changes", loc(fn), found=sorted(attrs))
     chk.expect(got_law, "R-C08-1", "leak law located", loc(fn))
+    B.check_updaters(chk, "R-C08-3", fn, "leak_constraint", paths, {"leak_status", "_is_isolated"}, loc(fn))
+    for bn in ("mass_balance_constraint", "pdd_mass_balance_constraint"):
+        f_, p_, e_ = B.run_builder(repo, CON, bn + ".build")
+        B.check_updaters(chk, "R-C08-3", f_, bn, p_, {"leak_status"}, loc(f_))
+        has = any(any(s_.name == "m.leak_rate[node_name]" for s_ in e_.S(st_[1].expr).free_symbols) for q_ in p_ if q_.has(".leak_status", True)
+                  for st_ in q_.stores("m.") if isinstance(st_[1], Constraint) and not isinstance(st_[1].expr, CondExpr))
+        chk.expect(has, "R-C08-3", "%s contains the leak-rate term while the leak is active" % bn, loc(f_))
     consts = B.constants(repo)
     dl, sl = consts.get("leak_delta"), consts.get("leak_slope")
     chk.expect(dl is not None and dl[0] == sp.Rational(1, 10000), "R-C08-1", "leak smoothing band is 0.1 mm of pressure head", loc(B.CONSTANTS), expected="1e-4", found=str(dl[0]) if dl else None)
@@ -183,13 +188,13 @@ def run(repo, chk):
     for (t, v, ln), pe, k in zip(stores, params, "abcd"):
         got = pe[2][1][0]
         chk.expect(t == "m.leak_poly_coeffs_%s[node_name]" % k and isinstance(got, Opaque) and got.text == "spline0.%s" % k, "R-C08-1", "%s receives spline coefficient %s" % (t, k), loc(pfn), found=got)
-    chk.expect({"leak_discharge_coeff", "leak_area"} <= set(p0.updater_attrs()), "R-C08-3", "leak_poly_coeffs_param re-computes when area or discharge coefficient change", loc(pfn), found=p0.updater_attrs())
+    B.check_updaters(chk, "R-C08-3", pfn, "leak_poly_coeffs_param", pp, {"leak_discharge_coeff", "leak_area"}, loc(pfn))
     for pname, attr in (("leak_coeff_param", "leak_discharge_coeff"), ("leak_area_param", "leak_area")):
         f2_, pths, e2 = B.run_builder(repo, PAR, pname + ".build")
         pr = [e for e in pths[0].st.events if e[0] == "call" and e[1].startswith("aml.Param(")]
         val = pr[-1][2][1][0] if pr else None
-        chk.expect(isinstance(val, Opaque) and val.text.endswith("." + attr) and attr in pths[0].updater_attrs(), "R-C08-3",
-                   "%s carries node.%s and follows its changes" % (pname, attr), loc(f2_), found=val)
+        chk.expect(isinstance(val, Opaque) and val.text.endswith("." + attr), "R-C08-3", "%s carries node.%s" % (pname, attr), loc(f2_), found=val)
+        B.check_updaters(chk, "R-C08-3", f2_, pname, pths, {attr}, loc(f2_))
     chk.floor("R-C08-1", 3 + 2 + 2 + 6 + 4)
 
     # ---------------------------------------------------------------- R-C08-2 index domains
